@@ -38,6 +38,19 @@ pub open spec fn text_ok(t: &TextRef) -> bool { text_ok_s(t.words@, t.chars@.len
 impl TrigramIndex {
     pub open spec fn wf(&self) -> bool { self.len <= 0x4000_0000 && postings_wf(self.dict@, self.len as int) }
 }
+// C18: how many of the grams gs[0..n) list position j
+pub open spec fn shared_cnt(dict: Map<[char; 3], Vec<usize>>, gs: Seq<[char; 3]>, j: int, n: int) -> int
+    decreases n
+{ if n <= 0 { 0 } else { shared_cnt(dict, gs, j, n - 1) + if posted(dict, gs[n - 1], j) { 1int } else { 0int } } }
+// gs enumerates the grams of the text, each once
+pub open spec fn gram_enum(gs: Seq<[char; 3]>, words: Seq<WordShape>, chars: Seq<char>) -> bool {
+    gs.no_duplicates() && forall|g: [char; 3]| gs.contains(g) <==> has_gram(words, chars, g@)
+}
+// C18: the candidates are listed by non-increasing number of shared grams, and no position left out shares more grams than a listed one
+pub open spec fn cnt_ranked(dict: Map<[char; 3], Vec<usize>>, gs: Seq<[char; 3]>, len: int, r: Seq<usize>) -> bool {
+    (forall|a: int, b: int| 0 <= a <= b < r.len() ==> shared_cnt(dict, gs, #[trigger] r[a] as int, gs.len() as int) >= shared_cnt(dict, gs, #[trigger] r[b] as int, gs.len() as int))
+    && (forall|j: int| 0 <= j < len && !#[trigger] r.contains(j as usize) && r.len() > 0 ==> shared_cnt(dict, gs, r.last() as int, gs.len() as int) >= shared_cnt(dict, gs, j, gs.len() as int))
+}
 // the positions that share a gram with the query text
 pub open spec fn share_set(dict: Map<[char; 3], Vec<usize>>, len: int, words: Seq<WordShape>, chars: Seq<char>) -> Set<int> {
     vstd::set_lib::set_int_range(0, len).filter(|j: int| shares(dict, words, chars, j))
@@ -52,4 +65,6 @@ pub open spec fn prepare_post(dict: Map<[char; 3], Vec<usize>>, len: int, words:
     // C18: exactly min(number of sharing positions, 10*size) candidates; all of them when at most 10*size positions share a gram
     && r.len() == (if share_set(dict, len, words, chars).len() < size * 10 { share_set(dict, len, words, chars).len() as int } else { size * 10 }) // [C18]
     && (share_set(dict, len, words, chars).len() <= size * 10 ==> forall|j: int| 0 <= j < len && #[trigger] shares(dict, words, chars, j) ==> r.contains(j as usize)) // [C18 C03 C04]
+    // C18: ordered by the number of shared grams (counted over a duplicate-free enumeration of the query's grams), best first
+    && (exists|gs: Seq<[char; 3]>| #[trigger] gram_enum(gs, words, chars) && cnt_ranked(dict, gs, len, r)) // [C18]
 }
